@@ -129,14 +129,8 @@ def make_repl(rng, pat, kind):
     return {"kind": kind, "elements": [els[i] for i in order], "positions": np.array([pos[i] for i in order], float).reshape(-1, 3)}
 
 
-def run_case(case, ctx):
-    import mofun.mofun as mm
-    rng = np.random.default_rng(case["s"])
-    st = ctx.stats
-    pat, S = build(rng, case)
-    rep = make_repl(rng, pat, case["repl"])
-    from vmon.gen import patterns
-    P, R = patterns.to_atoms(pat), replcase.rep_to_atoms(rep)
+def judge_call(ctx, st, case, S, P, R, pat, rep, mm, label=""):
+    """one real call with the given objects, judged against the harness's removal-set oracle -> share_any"""
     events.SCHEDULE["sample"] = case["sample"]
     kw = dict(atol=0.05, replace_all=case["replace_all"], replace_fraction=case["fraction"])
     if case["ignore"]:
@@ -146,8 +140,8 @@ def run_case(case, ctx):
     w = {"case": {k: case[k] for k in ("topology", "repl", "cell", "replace_all", "ignore", "fraction", "sample")}, "elements": list(S.elements),
          "pattern_elements": pat["elements"], "replacement_elements": rep["elements"], "found": obs["found"], "selected": obs["selected"]}
     if obs["found"] is None:
-        ctx.fail("no search observed: %r" % (obs["exception"],), witness=w)
-        return
+        ctx.fail(label + "no search observed: %r" % (obs["exception"],), witness=w)
+        return False, None, None, None, None, None, w
     found, sel = obs["found"], obs["selected"]
     shared = replcase.shared_pairs(pat, rep)
     shared_search = set() if case["replace_all"] else set(shared.values())
@@ -166,33 +160,59 @@ def run_case(case, ctx):
     if expect_raise:
         st.count("expected_error")
         if exc is None:
-            ctx.fail("matches %s would remove atom(s) %s twice, but a structure was returned" %
+            ctx.fail(label + "matches %s would remove atom(s) %s twice, but a structure was returned" %
                      ([found[k] for k in sel], sorted(set.union(*[rsets[a] & rsets[b] for a in range(len(rsets)) for b in range(a + 1, len(rsets))]))), witness=w)
         elif not isinstance(exc, mm.AtomsShouldNotBeDeletedTwice):
-            ctx.fail("overlapping removal raised %s instead of the dedicated error: %s" % (type(exc).__name__, str(exc)[:160]), witness=w)
+            ctx.fail(label + "overlapping removal raised %s instead of the dedicated error: %s" % (type(exc).__name__, str(exc)[:160]), witness=w)
         else:
             st.count("dedicated_error_raised")
     else:
         st.count("expected_no_error")
         if exc is not None:
             if isinstance(exc, mm.AtomsShouldNotBeDeletedTwice):
-                ctx.fail("the overlap error was raised although no atom would be removed twice (removal sets %s%s)" % ([sorted(r) for r in rsets], ", ignore flag set" if case["ignore"] else ""), witness=w)
+                ctx.fail(label + "the overlap error was raised although no atom would be removed twice (removal sets %s%s)" % ([sorted(r) for r in rsets], ", ignore flag set" if case["ignore"] else ""), witness=w)
             else:
-                ctx.fail("replacement raised %s: %s" % (type(exc).__name__, str(exc)[:160]), witness=w)
+                ctx.fail(label + "replacement raised %s: %s" % (type(exc).__name__, str(exc)[:160]), witness=w)
         else:
             out = obs["result"]
             removed = set().union(*rsets) if rsets else set()
             new_per_match = nrep if case["replace_all"] else nrep - len(shared)
             exp_n = len(S) - len(removed) + new_per_match * len(sel)
             if len(out) != exp_n:
-                ctx.fail("atoms not conserved: result has %d atoms, expected %d = %d - %d removed + %d inserted" % (len(out), exp_n, len(S), len(removed), new_per_match * len(sel)), witness=w)
+                ctx.fail(label + "atoms not conserved: result has %d atoms, expected %d = %d - %d removed + %d inserted" % (len(out), exp_n, len(S), len(removed), new_per_match * len(sel)), witness=w)
             in_ids = [float(c) for c in S.charges]
             kept = [float(c) for c in out.charges if float(c) >= 999]
             if len(set(kept)) != len(kept) or set(in_ids) - set(kept) != {in_ids[i] for i in removed}:
-                ctx.fail("removed atoms %s differ from the union of the removal sets %s" % (sorted(in_ids.index(c) for c in set(in_ids) - set(kept)), sorted(removed)), witness=w)
+                ctx.fail(label + "removed atoms %s differ from the union of the removal sets %s" % (sorted(in_ids.index(c) for c in set(in_ids) - set(kept)), sorted(removed)), witness=w)
             st.count("conservation_checked")
+    return share_any, found, sel, rsets, expect_raise, exc, w
+
+
+def run_case(case, ctx):
+    import mofun.mofun as mm
+    rng = np.random.default_rng(case["s"])
+    st = ctx.stats
+    pat, S = build(rng, case)
+    rep = make_repl(rng, pat, case["repl"])
+    from vmon.gen import patterns
+    P, R = patterns.to_atoms(pat), replcase.rep_to_atoms(rep)
+    r = judge_call(ctx, st, case, S, P, R, pat, rep, mm)
+    share_any, found, sel, rsets, expect_raise, exc, w = r
+    if found is None:
+        return
     st.seen("topology", case["topology"])
     st.seen("repl", case["repl"])
+    # history: the SAME pattern objects are used again after the replacement pattern was changed in place (same atom
+    # count, other elements -> other shared atoms); the verdict must follow the patterns as they are now
+    same_len = ["keep_first_replace_rest", "keep_rest_replace_first", "substitute_all", "identical"]
+    if case["repl"] in same_len and case["s"] % 2 == 0 and not case.get("_second"):
+        kind2 = same_len[(same_len.index(case["repl"]) + 1 + case["s"] // 2 % 3) % 4]
+        rep2 = make_repl(rng, pat, kind2)
+        R2 = replcase.rep_to_atoms(rep2)
+        for attr in ("positions", "atom_types", "atom_type_elements", "atom_type_masses", "atom_type_labels", "charges", "groups"):
+            setattr(R, attr, getattr(R2, attr))
+        judge_call(ctx, st, case, S, P, R, pat, rep2, mm, "second call, replacement pattern changed in place to %s: " % kind2)
+        st.count("second_calls_with_mutated_pattern_objects")
     if share_any:
         ctx.nontrivial(case["s"])
         if len(S) <= 12:
